@@ -165,7 +165,7 @@ class CSSVariablesDeclaration(cssutils.util._NewBase):
                     if nname in newvars:
                         # replace var with same name
                         for i, it in enumerate(newseq):
-                            if normalize(it.value[0]) == nname:
+                            if it.type == 'var' and normalize(it.value[0]) == nname:
                                 newseq.replace(
                                     i,
                                     (nameitem.value, item.value),
